@@ -392,6 +392,26 @@ func (c *fctx) globalFacts(g *ssa.Global, st *state) {
 		}
 		return
 	}
+	if pt, isP := types.Unalias(elem).Underlying().(*types.Pointer); isP {
+		// a *regexp.Regexp compiled once from a constant pattern: non-nil, and its source text is that pattern
+		// (contracts condition what they assume about a regular expression on reSource, so that an edited pattern
+		// no longer gets the facts stated for the old one)
+		if nt, isN := types.Unalias(pt.Elem()).(*types.Named); isN && nt.Obj().Pkg() != nil && nt.Obj().Pkg().Path() == "regexp" && nt.Obj().Name() == "Regexp" {
+			if pat, ok := c.P.GlobalInitRegex(g); ok {
+				key := "G:" + g.String()
+				init := q("H0." + key)
+				srt := c.S.SortOf(elem)
+				c.region(&state{h: map[string]string{}}, key, srt)
+				if !c.used["global-fact:"+key] {
+					c.used["global-fact:"+key] = true
+					fname := q("f.reSource")
+					c.S.declareOnce(fmt.Sprintf("(declare-fun %s (%s) Str)", fname, srt))
+					c.assume(fmt.Sprintf("(= (%s %s) %s)", fname, init, c.S.StrLit(pat)))
+				}
+			}
+		}
+		return
+	}
 	if !types.Identical(elem, types.Universe.Lookup("error").Type()) {
 		// an interface-typed variable assigned once, in its package initialiser, with a freshly boxed value is non-nil
 		if _, isI := types.Unalias(elem).Underlying().(*types.Interface); isI && c.P.GlobalInitBoxed(g) {
